@@ -347,3 +347,27 @@ package st
 //@   opt: lock-order=first<second
 //@   requires p != nil
 //@   modifies *
+//@ func ItemsKeptAcrossCounting
+//@   props: S01
+//@   level: PA
+//@   nosafe
+//@   modifies *
+//@   ensures [kept] result == 0
+//@ func ItemsAcrossIndexWriter
+//@   props: S01
+//@   level: PA
+//@   nosafe
+//@   modifies *
+//@   ensures [must-fail-index-writer] result == 0
+//@ func ItemsAcrossReflectiveWriter
+//@   props: S01
+//@   level: PA
+//@   nosafe
+//@   modifies *
+//@   ensures [must-fail-reflective-writer] result == 0
+//@ func ItemsAcrossPointerWriter
+//@   props: S01
+//@   level: PA
+//@   nosafe
+//@   modifies *
+//@   ensures [must-fail-pointer-writer] result == 0
